@@ -24,6 +24,11 @@ Streams (DESIGN 3.2):
   flat   (a class of tensors inside the streams above) U33, U23, U13, U12 tiny but not all zero — sums of absolute values at and
          next to every decade 1e-3 … 1e-9, where code that decides "isotropic / q-peak / regular atom" by magnitude has its
          limits — in files, through every editing route and through add_atom: still a symmetric tensor, Ueq = tr(U_cart)/3
+  body   (a class of files inside the streams above; `ctx`) instructions BETWEEN the atoms - MOVE with 0/2/3/4 numbers and
+         either sign, PART, RESI, AFIX, SAME, ANIS, SPEC, MOLE, DFIX, REM - every kind in front of the first / a middle / the
+         last atom, MOVE forms also with edits afterwards.  The reference is then evaluated at the position the atom itself
+         reports (frac_coords): cart_coords, the conversions, the inverses and the lengths belong to that position whatever
+         the parser carried over from the lines before                                (parse_body_coherent, parse_body_cart)
 The oracle is the driver's spec (metric tensor only); `impl vs spec` is a property failure, `impl vs model` (the Float
 instance of the mirrored code) a correspondence failure.  Nothing but the observables of the statement is compared.
 """
